@@ -132,7 +132,9 @@ fn finest_partition_order(size: usize, min_part_size: usize) -> usize {
 /// Encodes the sign bit into its LSB (for Rice coding).
 #[inline]
 pub const fn encode_signbit(v: i32) -> u32 {
-    (v.unsigned_abs() << 1) - (v < 0) as u32
+    // wrapping: a candidate residual of `i32::MIN` must fold like the SIMD version does
+    // (to `u32::MAX`, i.e. an unaffordable cost) instead of overflowing.
+    (v.unsigned_abs() << 1).wrapping_sub((v < 0) as u32)
 }
 
 #[inline]
